@@ -97,14 +97,16 @@ func (t *Timer) Reset(d Duration) bool {
 	was := !t.v.Stopped
 	t.v.D = d
 	t.v.Stopped = false
+	t.v.Deadline = vrt.Now().Add(d)
 	return was
 }
 
 func After(d Duration) <-chan Time { return NewTimer(d).C }
 
 func AfterFunc(d Duration, f func()) *Timer {
-	note("time.AfterFunc (never fires under the virtual clock)")
+	note("time.AfterFunc (fires only where a harness that moves the clock asks for due timers)")
 	v := vrt.NewVTicker(d)
+	v.F, v.Deadline = f, vrt.Now().Add(d)
 	return &Timer{C: v.C, v: v, f: f}
 }
 
